@@ -2,4 +2,5 @@
 EXTENDS CubePool
 AllFaultSets == SUBSET Tasks
 SingleFaults == {{}} \cup {{t} : t \in Tasks}
+UpToTwoFaults == {S \in SUBSET Tasks : Cardinality(S) <= 2}
 =============================================================================
